@@ -742,7 +742,7 @@ func (e *Exec) callValue(f Value, args []Value, inv *types.Func, caller *Frame, 
 			return nil, &GoPanic{msg: "runtime error: invalid memory address or nil pointer dereference (nil interface method call)", runtime: true,
 				val: IfaceV{typ: e.eng.runtimeErrType, val: StrV{s: "nil interface call"}}}
 		}
-		fn := e.eng.prog.LookupMethod(iv.typ, inv.Pkg(), inv.Name())
+		fn := e.eng.lookupMethod(iv.typ, inv.Pkg(), inv.Name())
 		if fn == nil {
 			e.unsupported("no method %s on %s", inv.Name(), iv.typ)
 		}
